@@ -72,11 +72,20 @@ def oracle(req, impl):
             return "harness scenario is not restored by the fault-free run of %s" % t[1]
         return None
     if fired != "1":
+        # the fault position lies beyond the last allocation of the call: this is a fault-free run and is judged as one
+        if rc != "0":
+            return "call of %s without a fired fault (k beyond its allocations) returned %s" % (t[1], rc)
+        if _field(impl, "same") != "1":
+            return "harness scenario is not restored by the run of %s in which no fault fired" % t[1]
         return None
     site = _field(impl, "site")
     if rc not in ("2", "3"):
-        # a call that succeeds although one allocation failed is acceptable only if it really did its work
-        if rc == "0" and _field(impl, "same") == "1":
+        # A call that succeeds although one allocation failed: acceptable only for SQLite's allocator class - SQLite has
+        # fall-backs of its own (lookaside, page-cache spill, retry without the optional buffer; 51 of 13 895 sites in the
+        # census of /repo 3148ec3, all class sq) - and only if the operation demonstrably did its work: the harness's
+        # operation + undo cycle left the scenario as it was (same=1) and the repeated call succeeds too.  A failed
+        # allocation of the library itself or of ICU must surface as an error code.
+        if rc == "0" and t[2] == "sq" and _field(impl, "same") == "1" and _field(impl, "retry") == "0":
             return None
         return "allocation failure at %s: call returned %s (expected CIF_MEMORY_ERROR or CIF_ERROR)" % (site, rc)
     if _field(impl, "same") != "1":
@@ -87,7 +96,11 @@ def oracle(req, impl):
 
 
 def finding_class(req, impl, model, why):
-    """keyed by operation, allocator class, the source location (file:function) of the failing allocation, and the consequence"""
+    """keyed by operation, allocator class, the source location (file:function) of the failing allocation, and the consequence.
+    This only NAMES a failure that the oracle (or a sanitizer / crash) has already established; it cannot hide one: a class is
+    suppressed only if known_findings lists it for family oom, and since /repo 3148ec3 no such entry exists (tools/check.py
+    prints every other class as a VIOLATION).  Every return value is non-None for a 4-token request, so an unexpected
+    observation format is still keyed (site `None` / consequence `retry=None`) instead of falling through."""
     t = req.split()
     if len(t) < 4:
         return None
